@@ -89,14 +89,14 @@ func genScript(r *hx.Rand, d *graphs.Desc, in *graphs.Instance, printable map[in
 		if in.Objs[id] == nil {
 			continue
 		}
-		container := nd.Kind == "list" || nd.Kind == "dict" || nd.Kind == "set" || nd.Kind == "tuple"
-		switch r.Intn(14) {
+		container := nd.Kind == "list" || nd.Kind == "dict" || nd.Kind == "set" || nd.Kind == "tuple" || nd.Kind == "tslice" || nd.Kind == "tcat"
+		switch r.Intn(17) {
 		case 0:
 			if container {
 				ops = append(ops, COp{N: "len", Node: id})
 			}
 		case 1:
-			if nd.Kind == "list" || nd.Kind == "tuple" {
+			if nd.Kind == "list" || nd.Kind == "tuple" || nd.Kind == "tslice" || nd.Kind == "tcat" {
 				ops = append(ops, COp{N: "index", Node: id, I: r.Intn(len(nd.Elems) + 1)})
 			}
 		case 2:
@@ -172,6 +172,14 @@ func genScript(r *hx.Rand, d *graphs.Desc, in *graphs.Instance, printable map[in
 		case 13:
 			if container {
 				ops = append(ops, COp{N: "script", Node: id, I: r.Intn(4)})
+			}
+		case 14, 15: // a value derived from the shared one, then mutated by this thread alone
+			if es := graphs.DerivExprs[nd.Kind]; len(es) > 0 {
+				ops = append(ops, COp{N: "derive", Node: id, I: r.Intn(len(es)), B: r.Intn(len(graphs.DerivedMuts)), Via: "mut"})
+			}
+		case 16: // read-only operators: concatenation, repetition, slicing
+			if es := graphs.ReadOnlyExprs[nd.Kind]; len(es) > 0 {
+				ops = append(ops, COp{N: "derive", Node: id, I: r.Intn(len(es)), A: int64(100 + r.Intn(900)), Via: "ro"})
 			}
 		}
 	}
@@ -259,6 +267,35 @@ func runOp(in *graphs.Instance, th *starlark.Thread, op COp) (out []Res) {
 			}
 		}
 		return append(out, Res{"stop"}, Res{"unit"})
+	case "derive":
+		kind := in.D.Nodes[op.Node].Kind
+		var d starlark.Value
+		if op.Via == "ro" {
+			d = graphs.Derive(th, graphs.ReadOnlyExprs[kind][op.I], v, op.A)
+		} else {
+			d = graphs.Derive(th, graphs.DerivExprs[kind][op.I], v, 0)
+			switch d.(type) {
+			case *starlark.List, *starlark.Dict, *starlark.Set:
+				graphs.DerivedMuts[op.B].F(th, d)
+			}
+		}
+		if d == nil {
+			return []Res{{"str", "derive-err"}}
+		}
+		// what the thread sees of its own derived value afterwards (element-wise, no printing of cycles)
+		out = append(out, Res{"str", fmt.Sprint(d.Type(), starlark.Len(d))})
+		if it := starlark.Iterate(d); it != nil {
+			var x starlark.Value
+			for n := 0; n < 6 && it.Next(&x); n++ {
+				if i, ok := x.(starlark.Int); ok {
+					out = append(out, Res{"str", i.String()})
+				} else {
+					out = append(out, valRes(in, x))
+				}
+			}
+			it.Done()
+		}
+		return out
 	case "compare":
 		eq, err := starlark.Equal(v, in.Objs[op.B])
 		if err != nil {
@@ -275,7 +312,7 @@ func runOp(in *graphs.Instance, th *starlark.Thread, op COp) (out []Res) {
 		return []Res{{"str", v.String()}}
 	case "call":
 		name := []string{"index", "get", "append"}[op.I]
-		r, err := starlark.Call(th, v, starlark.Tuple{starlark.MakeInt(op.B), starlark.String(name), starlark.Tuple{starlark.MakeInt(1)}, starlark.None}, nil)
+		r, err := starlark.Call(th, v, starlark.Tuple{starlark.MakeInt(op.B), starlark.String(name), starlark.Tuple{starlark.MakeInt(1)}, starlark.None}, in.D.Nodes[op.Node].Kwargs())
 		if err != nil {
 			s := err.Error()
 			if ee, ok := err.(*starlark.EvalError); ok {
@@ -404,6 +441,7 @@ type Out struct {
 	Same     bool           `json:"same"`
 	Diff     string         `json:"diff,omitempty"`
 	Accepted []string       `json:"accepted,omitempty"` // mutators of frozen values that returned no error
+	Changed  string         `json:"changed,omitempty"`  // a shared frozen value is not what it was before the threads ran
 	Ops      int            `json:"ops"`
 	Dist     map[string]int `json:"dist,omitempty"`
 	Extra    map[string]any `json:"extra,omitempty"`
@@ -456,14 +494,28 @@ func scenarioValues(seed uint64, n, rounds, scriptLen int, full bool) {
 				o.Ops++
 			}
 		}
+		world0 := stateOf(in)
+		worldChanged := func(when string) {
+			if o.Changed != "" {
+				return
+			}
+			for _, w := range diffStates(world0, stateOf(in)) {
+				if w.Field != 0 { // (re-)freezing only sets flags that were set
+					o.Changed = fmt.Sprintf("%s: %s node %d: field %d (0 flag, 1 itercount, 2 contents / memory)", when, d.Nodes[w.Node].Kind, w.Node, w.Field)
+					return
+				}
+			}
+		}
 		// alone, one after the other
 		solo := make([][][]Res, n)
 		for t := 0; t < n; t++ {
 			solo[t] = runScript(in, scripts[t], fmt.Sprint("solo", t))
 		}
+		worldChanged("after the threads' scripts ran one after the other")
 		// all at once
 		conc := make([][][]Res, n)
 		together(n, func(t int) { conc[t] = runScript(in, scripts[t], fmt.Sprint("conc", t)) })
+		worldChanged("after the threads ran concurrently")
 		o.Same = true
 		for t := 0; t < n; t++ {
 			for i := range scripts[t] {
@@ -678,15 +730,25 @@ type objState struct {
 	itoff    int
 }
 
-func stateOf(in *graphs.Instance) []objState {
+func stateOf(in *graphs.Instance) []objState { return stateOfNodes(in, -1) }
+
+// stateOfNodes: the state of node `only` alone (the others left blank), or of all nodes if only < 0.
+func stateOfNodes(in *graphs.Instance, only int) []objState {
 	out := make([]objState, len(in.Objs))
 	for id, v := range in.Objs {
+		if only >= 0 && id != only {
+			out[id] = objState{frozen: -1, iter: -1}
+			continue
+		}
 		st := objState{frozen: -1, iter: -1}
 		if v != nil {
 			if f, ok := starlark.VerifFrozen(v); ok {
 				st.frozen = b2i(f)
 			} else if s, ok := v.(*starlarkstruct.Struct); ok {
 				st.frozen = b2i(starlarkstruct.VerifFrozen(s))
+			}
+			if _, ok := v.(starlark.Tuple); ok {
+				st.frozen = 1 // immutable from birth: its array (up to its capacity) must never change
 			}
 			if n, ok := starlark.VerifIterCount(v); ok {
 				st.iter = int(n)
@@ -767,7 +829,17 @@ type FOut struct {
 	Src      string       `json:"src"`
 	Seqs     []FSeq       `json:"seqs"`
 	Position string       `json:"position,omitempty"` // a problem with the lazily decoded line table
+	Derived  []FDerived   `json:"derived,omitempty"`  // derived-value operations that wrote to the value they were computed from
+	NDerived int          `json:"nderived"`
 	Steps    int          `json:"steps"`
+}
+
+// FDerived: computing a value from node (and, for Mut != "", mutating the derived value) wrote to node.
+type FDerived struct {
+	Node   int     `json:"node"`
+	How    string  `json:"how"`
+	Mut    string  `json:"mut,omitempty"`
+	Writes []Write `json:"writes"`
 }
 
 func scenarioFootprints(seed uint64, rounds int) {
@@ -831,7 +903,7 @@ func scenarioFootprints(seed uint64, rounds int) {
 			if probe.Objs[id] == nil {
 				continue
 			}
-			container := nd.Kind == "list" || nd.Kind == "dict" || nd.Kind == "set" || nd.Kind == "tuple"
+			container := nd.Kind == "list" || nd.Kind == "dict" || nd.Kind == "set" || nd.Kind == "tuple" || nd.Kind == "tslice" || nd.Kind == "tcat"
 			var plans [][]FStep
 			if container {
 				plans = append(plans,
@@ -839,7 +911,7 @@ func scenarioFootprints(seed uint64, rounds int) {
 					[]FStep{{Op: "begin", Node: id}, {Op: "next"}, {Op: "begin", Node: id}, {Op: "next"}, {Op: "done"}, {Op: "next"}, {Op: "done"}},
 					[]FStep{{Op: "begin", Node: id}, {Op: "done"}, {Op: "store", Node: id}, {Op: "begin", Node: id}, {Op: "done"}})
 			}
-			if nd.Kind == "list" || nd.Kind == "tuple" {
+			if nd.Kind == "list" || nd.Kind == "tuple" || nd.Kind == "tslice" || nd.Kind == "tcat" {
 				plans = append(plans, []FStep{{Op: "index", Node: id, I: r.Intn(len(nd.Elems) + 1)}})
 			}
 			if container && starlark.Len(probe.Objs[id]) > 0 {
@@ -944,6 +1016,50 @@ func scenarioFootprints(seed uint64, rounds int) {
 				o.Seqs = append(o.Seqs, seq)
 			}
 		}
+		// derived values: x*1, x+[], x[:], sorted(x), x.items(), t+(k,) ... computed from every value
+		// and mutated in every way; the original must be untouched, content and raw bytes
+		{
+			in := graphs.Instantiate(d, src)
+			th := &starlark.Thread{Name: "derive"}
+			for id, nd := range d.Nodes {
+				v := in.Objs[id]
+				if v == nil {
+					continue
+				}
+				try := func(how, mut string, f func()) {
+					// a write into shared memory shows in the value itself: its raw bytes cover its whole array
+					before := stateOfNodes(in, id)
+					func() {
+						defer func() { recover() }()
+						f()
+					}()
+					o.NDerived++
+					if ws := diffStates(before, stateOfNodes(in, id)); len(ws) > 0 {
+						o.Derived = append(o.Derived, FDerived{Node: id, How: how, Mut: mut, Writes: ws})
+					}
+				}
+				for _, e := range graphs.ReadOnlyExprs[nd.Kind] {
+					e := e
+					try(e, "", func() {
+						a := graphs.Derive(th, e, v, 7)
+						b := graphs.Derive(th, e, v, 8) // a second result must not share memory with the first
+						_, _ = a, b
+					})
+				}
+				for _, e := range graphs.DerivExprs[nd.Kind] {
+					for _, m := range graphs.DerivedMuts {
+						e, m := e, m
+						try(e, m.Name, func() {
+							dv := graphs.Derive(th, e, v, 0)
+							switch dv.(type) {
+							case *starlark.List, *starlark.Dict, *starlark.Set:
+								m.F(th, dv)
+							}
+						})
+					}
+				}
+			}
+		}
 		// the Once cell: decoded by the first failing call, never again
 		in := graphs.Instantiate(d, src)
 		for id, nd := range d.Nodes {
@@ -955,7 +1071,7 @@ func scenarioFootprints(seed uint64, rounds int) {
 				continue // decoded by an earlier failure of the same code
 			}
 			th := &starlark.Thread{Name: "pos"}
-			_, err := starlark.Call(th, fn, starlark.Tuple{starlark.MakeInt(99), starlark.String("index"), starlark.Tuple{}, starlark.None}, nil)
+			_, err := starlark.Call(th, fn, starlark.Tuple{starlark.MakeInt(99), starlark.String("index"), starlark.Tuple{}, starlark.None}, nd.Kwargs())
 			if err == nil {
 				o.Position = fmt.Sprintf("node %d: the call was expected to fail", id)
 			} else if !starlark.VerifLNTDecoded(fn) {
